@@ -73,8 +73,54 @@ def compare(writer: List[Summary], sizer: List[Summary]):
             if heads(wt) != heads(st):
                 definite.append((m, w, s))
             else:
-                undecided.append((m, w, s))
+                verdict = _arith_verdict(wt, st)
+                if verdict == "equal":
+                    continue
+                if verdict == "differ":
+                    definite.append((m, w, s))
+                else:
+                    undecided.append((m, w, s))
     return n, definite, undecided
+
+
+def _first_difference(a: Any, b: Any):
+    """parallel walk of two terms of the same shape: the first pair of differing sub-terms"""
+    if a == b:
+        return None
+    if isinstance(a, tuple) and isinstance(b, tuple) and len(a) == len(b) and a and b and a[0] == b[0] and isinstance(a[0], str) \
+            and a[0] not in ("op", "ife", "c", "n"):
+        for x, y in zip(a[1:], b[1:]):
+            d = _first_difference(x, y)
+            if d is not None:
+                return d
+        return None
+    if isinstance(a, tuple) and isinstance(b, tuple) and len(a) == len(b) and (not a or not isinstance(a[0], str)):
+        for x, y in zip(a, b):
+            d = _first_difference(x, y)
+            if d is not None:
+                return d
+        return None
+    return a, b
+
+
+def _arith_verdict(wt: Sym, st: Sym) -> str:
+    """same callee skeleton, different integer arithmetic: decide with linear normal forms per sign case.
+    Lemma used for 'differ': size_varint / varint length of two linear functions of the same variable that differ
+    by a non-zero constant or in slope differs for some value (at a 7-bit boundary)."""
+    from .linarith import compare as lcompare, free_vars
+
+    d = _first_difference(wt, st)
+    if d is None:
+        return "equal"
+    a, b = d
+    if not (isinstance(a, tuple) and isinstance(b, tuple)):
+        return "unknown"
+    va, vb = free_vars(a), free_vars(b)
+    common = [v for v in va if v in vb]
+    if len(common) != 1 or len(va) != 1 or len(vb) != 1:
+        return "unknown"
+    verdict, _ = lcompare(a, b, common[0])
+    return verdict
 
 
 def _under(val: Dict[Sym, bool], total: Sym) -> Sym:
